@@ -67,6 +67,10 @@ type Prop struct {
 	// Fixed is an optional deterministic part (bounded-exhaustive enumeration, grids) run in every
 	// shard (it partitions its space by ctx.Shard/ctx.Shards); it reports failures through report.
 	Fixed func(ctx *Ctx, report func(c interface{}, err error))
+	// FromBytes (optional) maps a raw fuzz input to a case, for the coverage-guided native fuzz target
+	// FuzzProp (thorough tier only); nil result = input too short. FuzzSeeds are its starting corpus.
+	FromBytes func(data []byte) interface{}
+	FuzzSeeds func() [][]byte
 }
 
 var registry = map[string]*Prop{}
@@ -297,4 +301,48 @@ func TestFindings(t *testing.T) {
 	}
 	os.Stdout.Sync()
 	os.Exit(0) // goroutines of reproduced hangs may still be spinning
+}
+
+// FuzzProp is the coverage-guided (native go test -fuzz) entry point of the properties that define
+// FromBytes: the fuzzer mutates raw bytes, FromBytes turns them into a case, and the property's own
+// oracle judges it. A failing case is written as a JSON replay (VERIF_OUT.replay), like in TestProp.
+func FuzzProp(f *testing.F) {
+	id := os.Getenv("VERIF_PROP")
+	p := registry[id]
+	if p == nil || p.FromBytes == nil {
+		f.Skip("no native fuzz target for VERIF_PROP=" + id)
+	}
+	if p.FuzzSeeds != nil {
+		for _, s := range p.FuzzSeeds() {
+			f.Add(s)
+		}
+	}
+	out := os.Getenv("VERIF_OUT")
+	ctx := &Ctx{Stats: harness.NewStats(id), Tier: "thorough", Shards: 1, Seed: envInt("VERIF_SEED", 1)}
+	f.Fuzz(func(t *testing.T, data []byte) {
+		c := p.FromBytes(data)
+		if c == nil {
+			return
+		}
+		ctx.labels = ctx.labels[:0]
+		ctx.nontrivial, ctx.Hung, ctx.Abandoned = false, false, false
+		err := safeCheck(p, c, ctx)
+		if ctx.Abandoned && !ctx.Hung {
+			return
+		}
+		if ctx.Hung && err == nil {
+			err = fmt.Errorf("library call did not return within the deadline")
+		}
+		if err != nil {
+			js, _ := json.Marshal(c)
+			kind := "violation"
+			if ctx.Hung {
+				kind = "hang"
+			}
+			if out != "" {
+				writeReplay(out+".replay", id, kind, js, err)
+			}
+			t.Fatalf("%v", err)
+		}
+	})
 }
